@@ -109,6 +109,21 @@ macro_rules! real_layout {
                 let r = L::traces_commit(&mut t, &u, c);
                 Ok(Ok(json!({"commitment": serde_json::to_value(&r).map_err(dbg)?, "transcript": transcript_json(&t)})))
             }
+            "eval_composition_polynomial" => {
+                let ie: <L as LayoutTrait>::InteractionElements = de($req, "interaction_elements")?;
+                let pi: PublicInput = de($req, "public_input")?;
+                let r = L::eval_composition_polynomial(
+                    &ie, &pi, &felts(get($req, "mask_values")?)?, &felts(get($req, "constraint_coefficients")?)?,
+                    &felt(get($req, "point")?)?, &felt(get($req, "trace_domain_size")?)?, &felt(get($req, "trace_generator")?)?);
+                Ok(r.map(|f| hex(&f)).map_err(dbg))
+            }
+            "eval_oods_polynomial" => {
+                let pi: PublicInput = de($req, "public_input")?;
+                let r = L::eval_oods_polynomial(
+                    &pi, &felts(get($req, "column_values")?)?, &felts(get($req, "oods_values")?)?, &felts(get($req, "constraint_coefficients")?)?,
+                    &felt(get($req, "point")?)?, &felt(get($req, "oods_point")?)?, &felt(get($req, "trace_generator")?)?);
+                Ok(r.map(|f| hex(&f)).map_err(dbg))
+            }
             f => Err(format!("unknown layout function {f}")),
         }
     }};
@@ -189,9 +204,10 @@ pub fn dispatch(req: &Value, func: &str) -> Option<Out> {
         })(),
         "pub_mem_ratio" => (|| -> Out {
             let pi: PublicInput = de(req, "public_input")?;
-            Ok(Ok(hex(&pi.get_public_memory_product_ratio(felt(get(req, "z")?)?, felt(get(req, "alpha")?)?, felt(get(req, "column_size")?)?))))
+            let r = pi.get_public_memory_product_ratio(felt(get(req, "z")?)?, felt(get(req, "alpha")?)?, felt(get(req, "column_size")?)?);
+            Ok(crate::FeltOutcome::outcome(r).map(|f| hex(&f)))
         })(),
-        "validate_public_input" | "verify_public_input" | "traces_commit" => layout_fn(req, func),
+        "validate_public_input" | "verify_public_input" | "traces_commit" | "eval_composition_polynomial" | "eval_oods_polynomial" => layout_fn(req, func),
         "stark_domains_new" => (|| -> Out {
             let d = StarkDomains::new(felt(get(req, "log_trace_domain_size")?)?, felt(get(req, "log_n_cosets")?)?);
             Ok(Ok(json!({
